@@ -266,7 +266,11 @@ func genC16(r *Rng, tier string, emit func(Case)) {
 		}
 		calls := []string{}
 		for j := 0; j < 1+r.Intn(30); j++ {
-			idx := r.Pick(-1, 0, ntx-1, ntx, 1<<31-1, r.Intn(ntx+1), r.Intn(ntx+1))
+			idx := r.Pick(-1, 0, ntx-1, ntx, 1<<31-1, r.Intn(ntx+1), r.Intn(ntx+1), r.Intn(ntx+1), r.Intn(ntx+1))
+			if r.Intn(12) == 0 {
+				// indices that alias a valid one when truncated to 32 (or 31, 16, 8) bits
+				idx = r.Pick(1<<32, 1<<32+r.Intn(ntx+1), -(1 << 32), -(1<<32)+r.Intn(ntx+1), 1<<63-1, -(1 << 63), 1<<31+r.Intn(ntx+1), 65536+r.Intn(ntx+1), 256+r.Intn(ntx+1))
+			}
 			switch r.Intn(8) {
 			case 0, 1:
 				calls = append(calls, "T"+itoa(idx))
